@@ -2,13 +2,16 @@
 
 package jtp
 
+import "servitor/config"
+
 // VerifPurge empties the response cache between simulated runs of one worker process.
-// It uses the cache's own method and mirrors no constant of the package.
+// It uses the cache's own method and mirrors no constant of the package. A cache that was
+// built from a size it cannot work with is left alone: golang-lru would panic while holding its
+// own lock, and the crash must happen in servitor's first fetch (where the simulation
+// attributes it), not here.
 func VerifPurge() {
-	// a cache built from a configuration it cannot work with must fail in servitor's own code
-	// (where the simulation attributes it), not here
-	defer func() { recover() }()
-	if cache != nil {
-		cache.Purge()
+	if cache == nil || config.Parsed.Network.CacheSize < 1 {
+		return
 	}
+	cache.Purge()
 }
